@@ -131,6 +131,9 @@ def run_case(case):
                 if persistent and case.get("quick") and kind in ("oserror", "eof") and k % 2:
                     continue      # quick tier: persistent oserror/eof only at every second index
                 plans.append(((k,), kind, persistent))
+        if k % 3 == 0:
+            # afterwards the transport's close() keeps failing for a while (close() and the first re-connect attempt meet it), then everything is healthy again
+            plans.append(((k,), "timeout", "closebroken"))
     if case.get("pairs"):
         rng = gen.rng_for("C12pairs", case["seed"], case["block"], case["variant"], impl)
         for _ in range(60):
@@ -139,6 +142,9 @@ def run_case(case):
             plans.append(((k1, k2), rng.choice(KINDS), False))
     for (kk, kind, persistent) in plans:
         injected = []
+        closebroken = persistent == "closebroken"
+        if closebroken:
+            persistent = False
 
         def faults(idx, call_kind, core, kk=kk, kind=kind, persistent=persistent, injected=injected):
             if not injected and idx < kk[0]:
@@ -196,7 +202,24 @@ def run_case(case):
                 pass
             if any(v["mechanism"] == "lock-held" for v in viol):
                 break
-            if (kk[0] + (1 if persistent else 0)) % 2 == 0:
+            if closebroken:
+                stats["close_broken_recoveries"] = stats.get("close_broken_recoveries", 0) + 1
+                sess.core.faults = lambda idx, call_kind, core: transports.Fault("oserror") if call_kind == "close" else None
+                sess.core.budget = 20000
+                sess.call("close")                       # may raise: the transport's close() does
+                first = connect_and_setup(sess)          # may raise for the same reason -- but if it reports success, the session must be a clean one
+                sess.core.budget = 400000
+                sess.core.faults = None
+                if first.ok and first.value is True:
+                    for i, step in enumerate(sc["steps"]):
+                        o, v = r.run_step(200 + i, step)
+                        if v or (o.ok is False and o.kind != "exc"):
+                            viol.append({"mechanism": "stale-session", "detail": "%s; then close() failing in the transport: connect() reported success, but step %d %s gave %s %s" % (
+                                where, i, step["op"], o.brief(100), (v[0]["detail"][:120] if v else ""))})
+                            break
+                        if not o.ok:
+                            break
+            elif (kk[0] + (1 if persistent else 0)) % 2 == 0:
                 # half of the runs close first, the other half reconnect directly (connect() itself must discard the old session)
                 sess.core.budget = 20000
                 oc = sess.call("close")
